@@ -341,6 +341,12 @@ def initialize_lua(ctx: "Wtp") -> None:
         attribute_filter=filter_attribute_access,
     )
     ctx.lua = lua
+    # All Python objects handed to Lua share one metatable (__gc, __index,
+    # __call, ...).  Code from pages must not get hold of it: it could call
+    # __gc on live objects or replace the handlers for the whole runtime.
+    lua.eval("function(o) getmetatable(o).__metatable = false end")(
+        filter_attribute_access
+    )
     set_global_lua_variable(
         lua,
         "NAMESPACE_DATA",
